@@ -486,6 +486,17 @@ template<class MeshT>
 void FileManager::writeStream(std::ostream &_ostream, const MeshT &_mesh) const
 {
     _ostream.imbue(std::locale::classic());
+
+    if (_mesh.needs_garbage_collection()) {
+        // Handles in the file are positions in the written lists: with deleted
+        // entities skipped they would not match. Refuse, like the OVMB writer.
+        if (verbosity_level_ >= 1) {
+            std::cerr << "Error: mesh has pending deletions, run garbage collection before writing!" << std::endl;
+        }
+        _ostream.setstate(std::ios_base::failbit);
+        return;
+    }
+
     // Write header
     _ostream << "OVM ASCII" << std::endl;
 
